@@ -37,4 +37,21 @@ def check(prog, ctx):
     return viol
 
 
-SUBS = [Sub("faults", check, strategy=strategy, reduce=reduce.candidates, examples={"quick": 8000, "thorough": 300000})]
+def sizes(tier):
+    from ..e1 import wide
+    return wide.specs(["fan-one-fails"], tier == "quick")
+
+
+def check_sizes(spec, ctx):
+    from ..e1 import wide
+    prog = wide.expand(spec)
+    env = engine.run_program(prog)
+    viol = oracles.clauses(env, "C02.")
+    r, exp = oracles.reference(prog, env)
+    viol += oracles.compare_with_reference(env, r, exp, "C02.propagation")
+    ctx.label("wide:" + spec["shape"])
+    ctx.nontrivial(spec)
+    return [(s, "%r: %s" % (spec, m[:600])) for s, m in viol]
+
+SUBS = [Sub("faults", check, strategy=strategy, reduce=reduce.candidates, examples={"quick": 8000, "thorough": 300000}),
+        Sub("sizes", check_sizes, enumerate=sizes)]
